@@ -8,14 +8,15 @@ namespace Verif.Py
 def replaceChar (c : Char) (r : List Char) (s : List Char) : List Char :=
   s.flatMap (fun x => if x = c then r else [x])
 
+/-- prepend `x` to the first piece. -/
+def consHead (x : Char) : List (List Char) → List (List Char)
+  | [] => [[x]]          -- unreachable below: splitOn never returns []
+  | p :: ps => (x :: p) :: ps
+
 /-- `str.split(c)` for a one-character separator: always at least one piece. -/
 def splitOn (c : Char) : List Char → List (List Char)
   | [] => [[]]
-  | x :: xs =>
-    if x = c then [] :: splitOn c xs
-    else match splitOn c xs with
-      | [] => [[x]]          -- unreachable: splitOn never returns []
-      | p :: ps => (x :: p) :: ps
+  | x :: xs => if x = c then [] :: splitOn c xs else consHead x (splitOn c xs)
 
 /-- `sep.join(parts)` for a one-character separator. -/
 def joinWith (c : Char) : List (List Char) → List Char
